@@ -43,12 +43,21 @@ def mc(ctx: Ctx, rep: Report) -> None:
                                "RestoreInit", "Finish"])
     res = ctx.tlc("McaProc.tla", "McaProc_par.cfg", workers=8)
     rep.add_tlc(res, "procedure, parallel on per-task copies: same results in every interleaving, caller's model never written")
+    for cfg, what in [("McaProc_cycle_seq.cfg", "closed loop (steady state depends on the starting state), sequential: model restored, "
+                                                 "difference AND scaling are taken at the supplied state"),
+                      ("McaProc_cycle_par.cfg", "closed loop, parallel on per-task copies: same results in every interleaving"),
+                      ("McaProc_chain_early.cfg", "open chain: taking the supplied initial values back before the reference steady "
+                                                  "state is invisible (unique steady state)")]:
+        res = ctx.tlc("McaProc.tla", cfg, workers=4)
+        rep.add_tlc(res, f"procedure, {what}")
     res = ctx.tlc("McaProc.tla", "McaProc_pinned_rest.cfg", workers=4)
     rep.add_tlc(res, "pinned shape: parameters restored and coefficients right (only the initial values are at fault)")
     for cfg, inv, what in [
         ("McaProc_pinned.cfg", "InitsRestored", "pinned mca.py shape (supplied initial values never taken back), sequential"),
         ("McaProc_noreset.cfg", "ParsRestored", "forgetting the parameter reset"),
         ("McaProc_noreset_res.cfg", "ResultsRight", "forgetting the parameter reset corrupts later tasks' coefficients"),
+        ("McaProc_cycle_early.cfg", "ResultsRight", "closed loop: supplied initial values taken back BEFORE the reference steady "
+                                                     "state - the scaling is then taken at the model's own state"),
         ("McaProc_reach.cfg", "Reached", "vacuity guard: finished runs with supplied initial values and normalisation exist"),
     ]:
         r = ctx.tlc("McaProc.tla", cfg, expect_violation=True, workers=4)
@@ -173,13 +182,15 @@ def response_cases(pt: dict, rnd: random.Random, parallel_too: bool) -> tuple[li
     vars_, pars, rxns = _tabs(pt)
     out: list = []
     stats = {"cases": 0, "worst": 0.0, "parallel": 0}
-    y0 = {v: 3.0 + 2 * j for j, v in enumerate(vars_)}
+    # the analysis is AT the point's state: either the model holds it, or the model holds decoys (another conserved
+    # total!) and the state is supplied through variables=
+    state = {v: fl(pt["env"][v]) for v in vars_}
     for with_vars, normalized, h in [(w, n, hh) for w in (False, True) for n in (True, False) for hh in (H, HQ)]:
         to_scan = None if rnd.random() < 0.7 else [pars[rnd.randrange(len(pars))]]
         cols = pars if to_scan is None else to_scan
         results = {}
         for parallel in ([False, True] if parallel_too else [False]):
-            model, _ = build(pt, inits={v: 1.0 for v in vars_})
+            model, _ = build(pt, inits=_decoys(vars_) if with_vars else None)
             scn = {"kind": "response", "routine": "response_coefficients", "net": pt["net"], "env": pt["env"],
                    "normalized": normalized, "with_variables": with_vars, "to_scan": to_scan, "parallel": parallel,
                    "displacement": h}
@@ -187,7 +198,7 @@ def response_cases(pt: dict, rnd: random.Random, parallel_too: bool) -> tuple[li
             stats["cases"] += 1
             stats["parallel"] += parallel
             try:
-                rc = mca.response_coefficients(model, to_scan=to_scan, variables=dict(y0) if with_vars else None,
+                rc = mca.response_coefficients(model, to_scan=to_scan, variables=dict(state) if with_vars else None,
                                                normalized=normalized, displacement=h, disable_tqdm=True,
                                                parallel=parallel, max_workers=2)
             except Exception as e:  # noqa: BLE001
@@ -249,7 +260,7 @@ def points(ctx: Ctx, rep: Report) -> list[dict]:
     pts = [norm_point(p) for p in res.payloads]
     if len(pts) < 200:
         raise MachineryError(f"only {len(pts)} points emitted")
-    if {p["net"] for p in pts} != {"chain2", "branch", "rev", "pl"}:
+    if {p["net"] for p in pts} != {"chain2", "branch", "rev", "cycle", "pl"}:
         raise MachineryError("a network of the family is missing from the emission")
     return pts
 
@@ -266,7 +277,7 @@ def binding_selftest(pts: list[dict], rep: Report) -> None:
     bad_pt = _copy.deepcopy(pt)
     r = bad_pt["qcu"][q][x]
     bad_pt["qcu"][q][x] = {"n": int(r["n"]) * 101, "d": int(r["d"]) * 100}
-    model, _ = build(pt, inits={v: 1.0 for v in vars_})
+    model, _ = build(pt)
     rc = mca.response_coefficients(model, normalized=False, displacement=HQ, disable_tqdm=True, parallel=False)
     good = _rc_compare(pt, rc, False, pars, HQ)
     bad = _rc_compare(bad_pt, rc, False, pars, HQ)
@@ -309,7 +320,7 @@ def run(ctx: Ctx) -> int:
     pts = points(ctx, rep)
     binding_selftest(pts, rep)
     rnd = random.Random(ctx.seed)
-    cap = 224 if ctx.quick else 4000
+    cap = 240 if ctx.quick else 4000
     pick = pts if len(pts) <= cap else rnd.sample(pts, cap)
     results = pmap(_seq_point, [(p, ctx.seed) for p in pick], chunk=4)
     worst_el = worst_rc = 0.0
@@ -325,7 +336,13 @@ def run(ctx: Ctx) -> int:
     # ---- parallel mode (own process pools: run outside the daemonic pmap workers) ----------------------------
     with_ss = [p for p in pick if p["hasss"]]
     n_par = 20 if ctx.quick else 160
-    par_pts = with_ss if len(with_ss) <= n_par else rnd.sample(with_ss, n_par)
+    by_net: dict = {}
+    for p in with_ss:
+        by_net.setdefault(p["net"], []).append(p)
+    par_pts = []
+    for net in sorted(by_net):                      # the same share of every network (the closed loop included)
+        share = max(1, n_par // len(by_net))
+        par_pts += by_net[net] if len(by_net[net]) <= share else rnd.sample(by_net[net], share)
     from concurrent.futures import ProcessPoolExecutor
     import multiprocessing as mp
 
